@@ -183,6 +183,14 @@ func genOne(c *hx.Ctx, class string) string {
 
 func gen(c *hx.Ctx) {
 	classes := []string{"slow", "slow", "fast", "close-mid", "close-mid", "close-tie", "close-tie", "cstop", "close-early"}
+	// stress lines: real goroutines on 4 Ps racing for the last free slots, then close (judged by the oracle only)
+	rounds := c.Budget(400, 4000)
+	for _, cfg := range [][3]int{{1, 1, 2}, {2, 1, 3}, {4, 1, 2}, {1, 0, 2}, {3, 2, 3}, {8, 1, 3}, {2, 2, 3}} {
+		for _, cons := range []string{"none", "slow"} {
+			c.Emit("stress K %d free %d senders %d rounds %d cons %s", cfg[0], cfg[1], cfg[2], rounds, cons)
+			c.Count("stress_lines")
+		}
+	}
 	N := c.Budget(20000, 300000)
 	for i := 0; i < N; i++ {
 		cl := classes[i%len(classes)]
